@@ -1,4 +1,5 @@
 import Cgm.Lemmas.AuditCmd
 import Cgm.Props.C18
 import Cgm.Props.C18b
+import Cgm.Props.C18c
 #audit_namespace Cg.C18
